@@ -486,7 +486,13 @@ def D6(m, R):
             R.undecided(init, init.node, 'cursor attribute not found', construct=cons)
             continue
         ia = 'self.' + idx_attr[0]
-        b = nx.body
+        b = list(nx.body)
+        # `if T: return X` then `raise StopIteration` is `if not T: raise StopIteration` then `return X`
+        if len(b) >= 2 and isinstance(b[-1], ast.Raise) and isinstance(b[-2], ast.If) and not b[-2].orelse and len(b[-2].body) == 1 and isinstance(b[-2].body[0], ast.Return):
+            from ..model import negate
+            g_ = ast.copy_location(ast.If(test=negate(b[-2].test), body=[b[-1]], orelse=[]), b[-2])
+            ast.fix_missing_locations(g_)
+            b = b[:-2] + [g_, b[-2].body[0]]
         # symbolic run of the straight-line body: the cursor c becomes c + 1 before it is used; StopIteration exactly when c + 1 >= len(s);
         # the value is s[c + 1]; the cursor starts at -1
         from .P_more import Sym, _sym_eval
@@ -579,9 +585,12 @@ def D6(m, R):
     move_txt = ('%s[%s]' % (tbl, NEWL), '%s.pop(%s)' % (tbl, OLDL))
     try:
         for region, rank in (('>', 2), ('=', 1), ('<', 0)):
-            for present in (True, False):
+            for present in (False, True):
                 base = merge_valuations(order_valuation({NEWL: rank, OLDL: 1}),
-                                        flag_valuation({}, {'%s in %s' % (OLDL, tbl): present, '%s not in %s' % (OLDL, tbl): not present}))
+                                        flag_valuation({}, {'%s in %s' % (OLDL, tbl): present, '%s not in %s' % (OLDL, tbl): not present,
+                                                            # the table holds points (elsewhere, when none sits at the old end): the case a test of its
+                                                            # mere non-emptiness cannot tell from "a point at the old end"
+                                                            tbl: True, 'len(%s) > 0' % tbl: True, 'len(%s) != 0' % tbl: True, 'len(%s) == 0' % tbl: False}))
 
                 def val(atom, base=base):
                     return base(subst(atom, aal))
@@ -612,7 +621,8 @@ def D6(m, R):
                 if region == '>' and present and acts != ['move']:
                     problems.append('for a longer string with a point at the old end the body does %s; it must move that point to the new end' % acts)
                 if region == '>' and not present and acts not in ([], ):
-                    problems.append('for a longer string without a point at the old end the body does %s' % acts)
+                    problems.append('for a longer string without a point at the old end (formatting stops before the end of the text) the body does %s: '
+                                    'nothing may be moved' % acts)
                 if region == '<' and acts != ['clip']:
                     problems.append('for a shorter string the body does %s; it must clip(end=len(s), inplace=True)' % acts)
                 if region == '=' and any(a_ not in ('move', 'clip') for a_ in acts):
